@@ -26,6 +26,8 @@ func init() {
 			return tree(c, i, cs)
 		case "raw":
 			return rawCase(c, i, cs)
+		case "live":
+			return liveCase(c, i, cs)
 		}
 		amf0x.Broken("unknown case kind %q", cs.Kind)
 		return rp.Result{}
@@ -149,6 +151,26 @@ func tree(c *rp.Ctx, i int, cs *amf0x.Case) rp.Result {
 		if _, f := decodedAs(i, fmt.Sprintf("the value that follows at offset Size() = %d", d.Size), stream[d.Size:], cs.Next, cs.SizeNext, next, freeNext, seed); f != nil {
 			return *f
 		}
+	}
+	return rp.Result{OK: true, Nontriv: true}
+}
+
+// liveCase: a history of calls on live objects (spec/amf0/Amf0Live.tla). Whatever was marshalled, changed below,
+// decoded or moved before: the node the behaviour observes reports Size() = the size of the value it has NOW and
+// marshals to exactly those bytes.
+func liveCase(c *rp.Ctx, i int, cs *amf0x.Case) rp.Result {
+	k, what := amf0x.RunLive(cs.Steps, c.Seed, func(k int, st *amf0x.Step, a amf0.Amf0) string {
+		want, free := amf0x.MustLDFree(st.Enc, c.Seed)
+		if len(want) != st.Size {
+			amf0x.Broken("case %d step %d: encoding has %d bytes, size says %d", i, k, len(want), st.Size)
+		}
+		if _, f := marshalled(i, fmt.Sprintf("node #%d", st.N), a, want, free); f != nil {
+			return f.What
+		}
+		return ""
+	})
+	if k >= 0 {
+		return rp.Fail(i, "history [%s]: step %d: %s", amf0x.History(cs.Steps, k), k, what)
 	}
 	return rp.Result{OK: true, Nontriv: true}
 }
